@@ -28,6 +28,15 @@ def byte_offsets(n, tier, rng=None):
     return sorted(o for o in offs if 0 < o < n)
 
 
+GARBAGE = {
+    "latin1": '{"comment": "caf\u00e9"}'.encode("latin-1"),
+    "utf16_bom": '{"comment": "x"}'.encode("utf-16"),
+    "binary": bytes(range(128, 256)) * 3,
+    "nul": b"\x00" * 64,
+    "deep": b"[" * 20000,
+}
+
+
 class CrashProfile(Profile):
     name = "crash"
     prop = "C17"
@@ -374,7 +383,8 @@ class CrashProfile(Profile):
             content = f.read()
         n = len(content)
         if step["modes"] == "all":
-            modes = [["trunc", k] for k in ([0] + byte_offsets(n, run.tier))] + [["dir"], ["eacces"], ["eio"]]
+            modes = [["trunc", k] for k in ([0] + byte_offsets(n, run.tier))] + [["dir"], ["eacces"], ["eio"]] + \
+                    [["bytes", k] for k in sorted(GARBAGE)]
         else:
             modes = step["modes"]
         others, searches = self._context(run, cfg, s)
@@ -386,6 +396,12 @@ class CrashProfile(Profile):
                 with open(p, "wb") as f:
                     f.write(content[: mode[1]])
                 run.fired["sidecar_truncated" if mode[1] else "sidecar_emptied"] += 1
+            elif mode[0] == "bytes":
+                # "unreadable or not valid JSON": written by another tool in another encoding, binary garbage, valid JSON
+                # that is not an object
+                with open(p, "wb") as f:
+                    f.write(GARBAGE[mode[1]])
+                run.fired["sidecar_garbage:" + mode[1]] += 1
             elif mode[0] == "dir":
                 os.unlink(p)
                 os.mkdir(p)
@@ -393,9 +409,9 @@ class CrashProfile(Profile):
             else:
                 faults = {rel: mode[0]}
             run.stats["corruptions"] += 1
-            run.case_mark("corrupt", mode[0], min(mode[1], 3) if len(mode) > 1 else None, n > 100)
+            run.case_mark("corrupt", mode[0], (min(mode[1], 3) if isinstance(mode[1], int) else mode[1]) if len(mode) > 1 else None, n > 100)
             tag = json.dumps(mode)
-            fresh = (run.stats["corruptions"] % 8 == 1) or mode[0] != "trunc"
+            fresh = (run.stats["corruptions"] % 8 == 1) or mode[0] not in ("trunc", "bytes")
             g = getter(cfg)
             has_getter = (run.m.routing.get(run.m.natural_type(s)) or {}).get("getter") == "GetFromPaths"
             use_all = cfg == run.m.default_config and has_getter
